@@ -47,7 +47,7 @@ class Msg:
     def __init__(self, method="GET", version="1.1", headers=None, body_len=0, framing="none",
                  chunks=None, chunk_opts=None, expect=None, conn=None, cls="ok", why="C10", raw_head=None,
                  plan=None, target_suffix="", extra_headers=None, cl_name="Content-Length",
-                 te_name="Transfer-Encoding", both=False, upgrade_tail=0, te_first=False):
+                 te_name="Transfer-Encoding", both=False, upgrade_tail=0, te_first=False, te_value="chunked"):
         self.method = method
         self.version = version
         self.headers = headers  # explicit list of (name, value) or None for default
@@ -65,6 +65,7 @@ class Msg:
         self.extra_headers = extra_headers or []
         self.cl_name = cl_name
         self.te_name = te_name
+        self.te_value = te_value      # the codings on the wire; the last one is always "chunked" in some case
         self.both = both
         self.te_first = te_first      # with both framing headers: Transfer-Encoding comes before Content-Length
         self.upgrade_tail = upgrade_tail
@@ -83,14 +84,14 @@ class Msg:
             if self.expect is not None:
                 hdrs.append(("Expect", self.expect))
             if self.framing == "chunked" and self.both and self.te_first:
-                hdrs.append((self.te_name, "chunked"))
+                hdrs.append((self.te_name, self.te_value))
                 hdrs.append(("X-Between", "1"))
                 hdrs.append((self.cl_name, str(self.body_len)))
             else:
                 if self.framing == "cl" or (self.framing == "chunked" and self.both):
                     hdrs.append((self.cl_name, str(self.body_len)))
                 if self.framing == "chunked":
-                    hdrs.append((self.te_name, "chunked"))
+                    hdrs.append((self.te_name, self.te_value))
         if self.raw_head is not None:
             head = self.raw_head if isinstance(self.raw_head, bytes) else self.raw_head.encode("latin1")
             head = head.replace(b"@URL@", url.encode())
@@ -138,10 +139,16 @@ class Msg:
         noframe = how == "writer" and len(a.get("parts", [])) == 0
         wflush = how == "writer" and a.get("flush", "never") in ("each", "last")
         exp = None
+        declared = self.body_len if self.framing == "cl" else None
+        if self.framing in ("upgrade", "none") and not any(n_.lower() == "transfer-encoding" for n_, _ in hdrs):
+            for n_, v_ in hdrs:
+                if n_.lower() == "content-length" and v_.strip(" \t").isdigit():
+                    declared = int(v_.strip(" \t"))      # a declared length is reported even when it does not frame the body
+                    break
         if self.cls == "ok":
             exp = {"method": self.method, "url": url, "ver": [int(self.version[0]), int(self.version[2])],
                    "headers": [[n, v.strip(" \t")] for n, v in hdrs],
-                   "body_length": (self.body_len if (self.framing == "cl" or (self.framing == "cl" and self.both)) else None)}
+                   "body_length": declared}
         return {
             "bytes": head + wire_body,
             "head_len": len(head),
